@@ -16,7 +16,9 @@ def fldBool (j : Json) (k : String) : R Bool := do (← fld j k).getBool?
 def fldBoolD (j : Json) (k : String) (d : Bool) : Bool :=
   match fldBool j k with | .ok b => b | .error _ => d
 def has (j : Json) (k : String) : Bool := match j.getObjVal? k with | .ok .null => false | .ok _ => true | .error _ => false
-def fldArr (j : Json) (k : String) : R (List Json) := do return (← arr (← fld j k)).toList
+def fldArr (j : Json) (k : String) : R (List Json) := do
+  if !has j k then return []
+  return (← arr (← fld j k)).toList
 def strList (j : Json) : R (List String) := do (← arr j).toList.mapM str
 
 def decVal (j : Json) : R Val := do
@@ -76,6 +78,7 @@ def decAtom (j : Json) : R Atom := do
 
 partial def decRule (j : Json) : R Dnf.Rule := do
   let neg := fldBoolD j "neg" false
+  if has j "not" then return Dnf.negate (← decRule (← fld j "not"))
   if has j "atom" then return .atom neg (← fldNat j "atom")
   if has j "and" then return .and (← (← fldArr j "and").mapM decRule)
   if has j "or" then return .or (← (← fldArr j "or").mapM decRule)
